@@ -228,7 +228,7 @@ func sdpCase(t *testing.T, name, sdp string) {
 		defer s.Close()
 		o.codec, o.audio, o.hls = s.Video.Codec, s.Audio.Codec, hlsOf(s) != nil
 		rec := mediah.NewRec("rtp")
-		s.StartConsume(rec, media.RTPPacket, "c07")
+		cid := s.StartConsume(rec, media.RTPPacket, "c07")
 		s.StartConsume(mediah.NewRec("flv"), media.FLVPacket, "c07")
 		pkts := []pkt{
 			mkPkt(rtp.ChannelVideoControl, rtppack.SenderReport(1, 3900000000, 0, 90000, 0, 0), ""),
@@ -244,7 +244,8 @@ func sdpCase(t *testing.T, name, sdp string) {
 			s.WriteRtpPacket(ip)
 			o.sent++
 		}
-		mediah.WaitFor(bound, func() bool { return rec.Len() >= o.sent })
+		// state, not time: everything delivered, or the consumer's queue drained with packets missing
+		mediah.WaitFor(generous, func() bool { return rec.Len() >= o.sent || consumerDrained(s, cid) })
 		o.got = rec.Len()
 	}()
 	select {
@@ -261,8 +262,8 @@ func sdpCase(t *testing.T, name, sdp string) {
 			evid.Nontrivial(evid.FP("sdp", sdp))
 		}
 		evid.Class(name + ": " + reach)
-	case <-time.After(3 * bound):
-		evid.Violation(t, name+"/hang", map[string]any{"sdp": sdp}, "creating, feeding or closing the stream did not return within %v", 3*bound)
+	case <-time.After(3 * generous):
+		evid.Violation(t, name+"/hang", map[string]any{"sdp": sdp}, "creating, feeding or closing the stream did not return within %v:\n%s", 3*generous, firstLines(strings.Join(stacksOf("c07.sdpCase"), "\n\n"), 40))
 	}
 }
 
